@@ -88,6 +88,8 @@ func (d *driver) do(o op, rng *rand.Rand) error {
 		return d.release(d.parkedJob(d.jobs[o.Idx-1]))
 	case "drain":
 		return d.drainJobs()
+	case "todata":
+		return d.stepToDataTrie()
 	}
 	return fmt.Errorf("unknown op %q", o.Op)
 }
